@@ -30,52 +30,69 @@ def load(prop):
     return json.load(open(p))
 
 
+def _one(args):
+    """one mutant in a child process: returns (name, ok, hit, fails, broken, silent, why, expect) or raises through the tuple"""
+    prop, m, known = args
+    d = scratch_copy()
+    try:
+        path = os.path.join(d, m["file"])
+        src = open(path).read()
+        if src.count(m["old"]) != 1:
+            return ("noapply", m["name"], src.count(m["old"]))
+        open(path, "w").write(src.replace(m["old"], m["new"]))
+        try:
+            r = run_on(prop, d)
+            fails = [rl.full_key(i) for rl in r.rules for i in rl.instances
+                     if not i["ok"] and rl.full_key(i) not in known]
+            broken = None
+        except AnalysisBroken as e:
+            fails, broken = [], str(e)
+        except Exception as e:                       # internal error of a rule on the mutated tree
+            fails, broken = [], "internal error: %r" % (e,)
+        if m.get("silent"):
+            hit = []
+            ok = not fails and broken is None
+        else:
+            hit = [k for k in fails if m["expect"] in k]
+            ok = bool(hit) or bool(m.get("expect_broken") and broken is not None)
+        return ("done", m["name"], ok, hit[:3], fails[:5], broken)
+    finally:
+        shutil.rmtree(d, ignore_errors=True)
+
+
 def run(prop, rep, only=None, verbose=False):
+    import multiprocessing as mp_
     muts = load(prop)
     if only:
         muts = [m for m in muts if m["name"] in only]
     applied = detected = 0
     results = []
     known = {k["key"] for k in evidence.load_known() if k.get("status") == "known"}
-    for m in muts:
-        d = scratch_copy()
-        try:
-            path = os.path.join(d, m["file"])
-            src = open(path).read()
-            if src.count(m["old"]) != 1:
-                raise AnalysisBroken("self-test mutant %s/%s does not apply to %s "
-                                     "(text occurs %d times): re-freeze the mutant"
-                                     % (prop, m["name"], m["file"], src.count(m["old"])))
-            open(path, "w").write(src.replace(m["old"], m["new"]))
-            applied += 1
-            try:
-                r = run_on(prop, d)
-                fails = [rl.full_key(i) for rl in r.rules for i in rl.instances
-                         if not i["ok"] and rl.full_key(i) not in known]
-                broken = None
-            except AnalysisBroken as e:
-                fails, broken = [], str(e)
-            if m.get("silent"):
-                # property-preserving edit: the check must stay quiet
-                hit = []
-                ok = not fails and broken is None
-            else:
-                hit = [k for k in fails if m["expect"] in k]
-                ok = bool(hit) or bool(m.get("expect_broken") and broken is not None)
-            detected += 1 if ok else 0
-            results.append(dict(mutant=m["name"], detected=ok, reported=hit[:3] or fails[:3],
-                                broken=broken))
-            if verbose:
-                print("  mutant %-34s %s %s" % (m["name"], ("SILENT-OK" if m.get("silent") else "DETECTED") if ok else "MISSED",
-                                               (hit or fails or [broken])[:2]))
-            if not ok:
-                raise AnalysisBroken("self-test: mutant %s/%s (%s) %s; reported: %s %s"
-                                     % (prop, m["name"], m.get("why", ""),
-                                        "is property-preserving but raised an alarm" if m.get("silent")
-                                        else "was not reported by the expected rule " + m.get("expect", ""),
-                                        fails[:5], broken or ""))
-        finally:
-            shutil.rmtree(d, ignore_errors=True)
+    workers = int(os.environ.get("MPSA_SELFTEST_JOBS", "6"))
+    ctx = mp_.get_context("fork")
+    with ctx.Pool(processes=max(1, min(workers, len(muts) or 1))) as pool:
+        outs = pool.map(_one, [(prop, m, known) for m in muts], chunksize=1)
+    first_err = None
+    for m, o in zip(muts, outs):
+        if o[0] == "noapply":
+            raise AnalysisBroken("self-test mutant %s/%s does not apply to %s "
+                                 "(text occurs %d times): re-freeze the mutant"
+                                 % (prop, m["name"], m["file"], o[2]))
+        _, name, ok, hit, fails, broken = o
+        applied += 1
+        detected += 1 if ok else 0
+        results.append(dict(mutant=name, detected=ok, reported=hit or fails[:3], broken=broken))
+        if verbose:
+            print("  mutant %-34s %s %s" % (name, ("SILENT-OK" if m.get("silent") else "DETECTED") if ok else "MISSED",
+                                           (hit or fails or [broken])[:2]))
+        if not ok and first_err is None:
+            first_err = ("self-test: mutant %s/%s (%s) %s; reported: %s %s"
+                         % (prop, name, m.get("why", ""),
+                            "is property-preserving but raised an alarm" if m.get("silent")
+                            else "was not reported by the expected rule " + m.get("expect", ""),
+                            fails[:5], broken or ""))
+    if first_err:
+        raise AnalysisBroken(first_err)
     if rep is not None:
         rep.extra["mutants_applied"] = applied
         rep.extra["mutants_detected"] = detected
